@@ -169,6 +169,7 @@ func (s *simLlama) Completion(ctx context.Context, req llm.CompletionRequest, fn
 	}
 	return nil
 }
+
 //go:norace
 func (s *simLlama) Embedding(ctx context.Context, input string) ([]float32, error) {
 	verifsim.Yield("sim:embedding")
@@ -177,6 +178,7 @@ func (s *simLlama) Embedding(ctx context.Context, input string) ([]float32, erro
 	}
 	return []float32{0.1, 0.2, 0.3}, nil
 }
+
 //go:norace
 func (s *simLlama) Tokenize(ctx context.Context, content string) ([]int, error) {
 	verifsim.Yield("sim:tokenize")
@@ -224,6 +226,7 @@ func (s *simLlama) EstimatedVRAM() uint64 { return s.estimate.VRAMSize }
 
 //go:norace
 func (s *simLlama) EstimatedTotal() uint64 { return s.estimate.TotalSize }
+
 //go:norace
 func (s *simLlama) EstimatedVRAMByGPU(gpuID string) uint64 {
 	for i, g := range s.gpus {
